@@ -265,6 +265,39 @@ Proof.
   auto_derive; [exact I|]. replace (pw - 1)%nat with (Init.Nat.pred pw) by lia. ring.
 Qed.
 
+
+Lemma m52_core (C b l a : R) : l <> 0 -> 0 < C + ((a - b) / l) * ((a - b) / l) ->
+  let five := 1 + 1 + 1 + 1 + 1 in let three := 1 + 1 + 1 in
+  is_derive (fun t => (1 + sqrt five * sqrt (C + ((t - b) / l) * ((t - b) / l))
+                         + five / three * (sqrt (C + ((t - b) / l) * ((t - b) / l)) * sqrt (C + ((t - b) / l) * ((t - b) / l))))
+                      * exp (- (sqrt five * sqrt (C + ((t - b) / l) * ((t - b) / l))))) a
+    (- (five / three * ((1 + sqrt five * sqrt (C + ((a - b) / l) * ((a - b) / l)))
+        * exp (- (sqrt five * sqrt (C + ((a - b) / l) * ((a - b) / l))))) * ((a - b) / (l * l)))).
+Proof.
+  intros Hl HS five three.
+  assert (Hc : sqrt five * sqrt five = five) by (apply sqrt_sqrt; unfold five; lra).
+  auto_derive; [repeat split; try exact I; try exact Hl; replace (a + - b) with (a - b) by ring; exact HS|].
+  replace (a + - b) with (a - b) by ring.
+  replace (C + (a - b) * / l * ((a - b) * / l)) with (C + (a - b) / l * ((a - b) / l)) by (unfold Rdiv; ring).
+  assert (Hq : sqrt (C + (a - b) / l * ((a - b) / l)) <> 0) by (apply Rgt_not_eq, sqrt_lt_R0; exact HS).
+  set (q := sqrt (C + (a - b) / l * ((a - b) / l))) in *.
+  set (c := sqrt five) in *. set (e := exp _).
+  replace five with (c * c) by exact Hc. unfold three. field. repeat split; first [exact Hq | exact Hl | lra].
+Qed.
+
+(* Matern52KernelGrad: the (d/dx_j, value) output is the partial derivative of the Matern-5/2
+   kernel, every d, away from coincident points *)
+Lemma m52_grad_x d x y l j a : (j < d)%nat -> l j <> 0 -> 0 < @sqd TR d (upd x j a) y l ->
+  is_derive (fun t => @k_matern TR 5 d (upd x j t) y l) a (@m52grad_entry TR d (upd x j a) y l (S j) 0).
+Proof.
+  intros Hj Hl HS. pose proof (sqd_upd_x d x y l j) as E.
+  rewrite (E a Hj) in HS.
+  unfold m52grad_entry. rewrite (E a Hj), upd_same.
+  eapply is_derive_ext.
+  { intros t. unfold k_matern. rewrite (E t Hj). reflexivity. }
+  exact (m52_core (@sqd TR d (upd x j (y j)) y l) (y j) (l j) a Hl HS).
+Qed.
+
 End DerivR.
 
 (* ------------------------------------------------------------------ interleaved layout *)
